@@ -25,3 +25,57 @@ impl Database {
 //@|    ensures r == old(map)@.contains_key(index),
 //@|        r ==> final(map)@ == old(map)@.insert(index, value),
 //@|        !r ==> final(map)@ == old(map)@,
+
+// [C19] the C entry points: each one operates on the map of ITS point type and leaves the three others untouched
+//@fn ffi/rodbus-ffi/src/database.rs | database_add_coil | tags=C19 | r24m
+//@|    ensures r == !old(database).coils@.contains_key(index), final(database).discrete_input@ == old(database).discrete_input@ && final(database).holding_registers@ == old(database).holding_registers@ && final(database).input_registers@ == old(database).input_registers@,
+//@|        r ==> final(database).coils@ == old(database).coils@.insert(index, value), !r ==> final(database).coils@ == old(database).coils@,
+//@fn ffi/rodbus-ffi/src/database.rs | database_get_coil | tags=C19 | r24m
+//@|    ensures final(database).coils@ == old(database).coils@, final(database).discrete_input@ == old(database).discrete_input@ && final(database).holding_registers@ == old(database).holding_registers@ && final(database).input_registers@ == old(database).input_registers@,
+//@|        old(database).coils@.contains_key(index) ==> r == Ok::<bool, ffi::ParamError>(old(database).coils@[index]),
+//@|        !old(database).coils@.contains_key(index) ==> r == Err::<bool, ffi::ParamError>(ffi::ParamError::InvalidIndex),
+//@fn ffi/rodbus-ffi/src/database.rs | database_update_coil | tags=C19 | r24m
+//@|    ensures r == old(database).coils@.contains_key(index), final(database).discrete_input@ == old(database).discrete_input@ && final(database).holding_registers@ == old(database).holding_registers@ && final(database).input_registers@ == old(database).input_registers@,
+//@|        r ==> final(database).coils@ == old(database).coils@.insert(index, value), !r ==> final(database).coils@ == old(database).coils@,
+//@fn ffi/rodbus-ffi/src/database.rs | database_delete_coil | tags=C19 | r24m
+//@|    ensures r == old(database).coils@.contains_key(index), final(database).discrete_input@ == old(database).discrete_input@ && final(database).holding_registers@ == old(database).holding_registers@ && final(database).input_registers@ == old(database).input_registers@,
+//@|        final(database).coils@ == old(database).coils@.remove(index),
+//@fn ffi/rodbus-ffi/src/database.rs | database_add_discrete_input | tags=C19 | r24m
+//@|    ensures r == !old(database).discrete_input@.contains_key(index), final(database).coils@ == old(database).coils@ && final(database).holding_registers@ == old(database).holding_registers@ && final(database).input_registers@ == old(database).input_registers@,
+//@|        r ==> final(database).discrete_input@ == old(database).discrete_input@.insert(index, value), !r ==> final(database).discrete_input@ == old(database).discrete_input@,
+//@fn ffi/rodbus-ffi/src/database.rs | database_get_discrete_input | tags=C19 | r24m
+//@|    ensures final(database).discrete_input@ == old(database).discrete_input@, final(database).coils@ == old(database).coils@ && final(database).holding_registers@ == old(database).holding_registers@ && final(database).input_registers@ == old(database).input_registers@,
+//@|        old(database).discrete_input@.contains_key(index) ==> r == Ok::<bool, ffi::ParamError>(old(database).discrete_input@[index]),
+//@|        !old(database).discrete_input@.contains_key(index) ==> r == Err::<bool, ffi::ParamError>(ffi::ParamError::InvalidIndex),
+//@fn ffi/rodbus-ffi/src/database.rs | database_update_discrete_input | tags=C19 | r24m
+//@|    ensures r == old(database).discrete_input@.contains_key(index), final(database).coils@ == old(database).coils@ && final(database).holding_registers@ == old(database).holding_registers@ && final(database).input_registers@ == old(database).input_registers@,
+//@|        r ==> final(database).discrete_input@ == old(database).discrete_input@.insert(index, value), !r ==> final(database).discrete_input@ == old(database).discrete_input@,
+//@fn ffi/rodbus-ffi/src/database.rs | database_delete_discrete_input | tags=C19 | r24m
+//@|    ensures r == old(database).discrete_input@.contains_key(index), final(database).coils@ == old(database).coils@ && final(database).holding_registers@ == old(database).holding_registers@ && final(database).input_registers@ == old(database).input_registers@,
+//@|        final(database).discrete_input@ == old(database).discrete_input@.remove(index),
+//@fn ffi/rodbus-ffi/src/database.rs | database_add_holding_register | tags=C19 | r24m
+//@|    ensures r == !old(database).holding_registers@.contains_key(index), final(database).coils@ == old(database).coils@ && final(database).discrete_input@ == old(database).discrete_input@ && final(database).input_registers@ == old(database).input_registers@,
+//@|        r ==> final(database).holding_registers@ == old(database).holding_registers@.insert(index, value), !r ==> final(database).holding_registers@ == old(database).holding_registers@,
+//@fn ffi/rodbus-ffi/src/database.rs | database_get_holding_register | tags=C19 | r24m
+//@|    ensures final(database).holding_registers@ == old(database).holding_registers@, final(database).coils@ == old(database).coils@ && final(database).discrete_input@ == old(database).discrete_input@ && final(database).input_registers@ == old(database).input_registers@,
+//@|        old(database).holding_registers@.contains_key(index) ==> r == Ok::<u16, ffi::ParamError>(old(database).holding_registers@[index]),
+//@|        !old(database).holding_registers@.contains_key(index) ==> r == Err::<u16, ffi::ParamError>(ffi::ParamError::InvalidIndex),
+//@fn ffi/rodbus-ffi/src/database.rs | database_update_holding_register | tags=C19 | r24m
+//@|    ensures r == old(database).holding_registers@.contains_key(index), final(database).coils@ == old(database).coils@ && final(database).discrete_input@ == old(database).discrete_input@ && final(database).input_registers@ == old(database).input_registers@,
+//@|        r ==> final(database).holding_registers@ == old(database).holding_registers@.insert(index, value), !r ==> final(database).holding_registers@ == old(database).holding_registers@,
+//@fn ffi/rodbus-ffi/src/database.rs | database_delete_holding_register | tags=C19 | r24m
+//@|    ensures r == old(database).holding_registers@.contains_key(index), final(database).coils@ == old(database).coils@ && final(database).discrete_input@ == old(database).discrete_input@ && final(database).input_registers@ == old(database).input_registers@,
+//@|        final(database).holding_registers@ == old(database).holding_registers@.remove(index),
+//@fn ffi/rodbus-ffi/src/database.rs | database_add_input_register | tags=C19 | r24m
+//@|    ensures r == !old(database).input_registers@.contains_key(index), final(database).coils@ == old(database).coils@ && final(database).discrete_input@ == old(database).discrete_input@ && final(database).holding_registers@ == old(database).holding_registers@,
+//@|        r ==> final(database).input_registers@ == old(database).input_registers@.insert(index, value), !r ==> final(database).input_registers@ == old(database).input_registers@,
+//@fn ffi/rodbus-ffi/src/database.rs | database_get_input_register | tags=C19 | r24m
+//@|    ensures final(database).input_registers@ == old(database).input_registers@, final(database).coils@ == old(database).coils@ && final(database).discrete_input@ == old(database).discrete_input@ && final(database).holding_registers@ == old(database).holding_registers@,
+//@|        old(database).input_registers@.contains_key(index) ==> r == Ok::<u16, ffi::ParamError>(old(database).input_registers@[index]),
+//@|        !old(database).input_registers@.contains_key(index) ==> r == Err::<u16, ffi::ParamError>(ffi::ParamError::InvalidIndex),
+//@fn ffi/rodbus-ffi/src/database.rs | database_update_input_register | tags=C19 | r24m
+//@|    ensures r == old(database).input_registers@.contains_key(index), final(database).coils@ == old(database).coils@ && final(database).discrete_input@ == old(database).discrete_input@ && final(database).holding_registers@ == old(database).holding_registers@,
+//@|        r ==> final(database).input_registers@ == old(database).input_registers@.insert(index, value), !r ==> final(database).input_registers@ == old(database).input_registers@,
+//@fn ffi/rodbus-ffi/src/database.rs | database_delete_input_register | tags=C19 | r24m
+//@|    ensures r == old(database).input_registers@.contains_key(index), final(database).coils@ == old(database).coils@ && final(database).discrete_input@ == old(database).discrete_input@ && final(database).holding_registers@ == old(database).holding_registers@,
+//@|        final(database).input_registers@ == old(database).input_registers@.remove(index),
